@@ -392,6 +392,12 @@ def jobs(tier):
     for j, c in enumerate(comps[::6]):
         out.append(('init_hier', 'case_init_hier',
                     dict(units=c, n_ids=2, fix=j), F))
+    for k, c in enumerate(c02.extra_quick()):
+        out.append(('init_hier', 'case_init_hier', dict(units=c, n_ids=2),
+                    F))
+        out.append(('init_filter', 'case_init_filter', dict(
+            units=c, n_samples=2, times=[2.5, 1.0],
+            sigma_fixed=(k % 2 == 0)), F))
     for k, c in enumerate(comps[::2] if q else comps):
         out.append(('init_filter', 'case_init_filter', dict(
             units=c, n_samples=2, times=[2.5, 1.0],
